@@ -58,6 +58,7 @@ StateLines == { Global([coord |-> "J2000"]), Global([coord |-> "GALACTIC", color
                 Line("", FALSE, "circle", <<T("deg", 150250), T("deg", -20500), T("arcsec", 54000)>>, NoProps),
                 Line("-", TRUE, "circle", <<T("deg", 150250), T("deg", -20500), T("arcsec", 54000)>>, [color |-> "blue"]),
                 Line("", FALSE, "circle", <<T("deg", 150250), T("deg", -20500), T("arcsec", 54000)>>, [coord |-> "ICRS", label |-> "x"]),
+                Line("", FALSE, "circle", <<T("deg", 150250), T("deg", -20500), T("arcsec", 54000)>>, [coord |-> "J2000", label |-> "global fit"]),      \* "global" is a word like any other inside a value
                 Line("", FALSE, "symbol", <<T("deg", 150250), T("deg", -20500)>>, NoProps) }
 Seqs(S, n) == UNION {[1..m -> S] : m \in 1..n}
 ReaderFiles == {<<l>> : l \in LexLines} \cup Seqs(StateLines, MaxLen)
@@ -79,6 +80,7 @@ Pool == {
   U("text", "icrs", Sky, <<>>, NoAng, TRUE, "ann", [text |-> "Hello there"]),
   U("text", "fk5", Sky, <<>>, NoAng, TRUE, "reg", [text |-> "NGC 1234", label |-> "source A"]),
   U("circle", "image", Pix, <<V("mpix", 4250)>>, NoAng, FALSE, "reg", [label |-> "p"]),
+  U("circle", "icrs", Sky, <<V("mas", 1800000)>>, NoAng, FALSE, "reg", [label |-> "sets global color=red"]),
   U("rectangle", "image", Pix, <<V("mpix", 6000), V("mpix", 2000)>>, V("mas", 108000000), TRUE, "reg", NoProps),
   U("ellipse", "image", Pix, <<V("mpix", 6000), V("mpix", 2000)>>, V("mas", 162000000), FALSE, "ann", NoProps),
   U("cannulus", "image", Pix, <<V("mpix", 2250), V("mpix", 5000)>>, NoAng, TRUE, "reg", NoProps),
